@@ -260,6 +260,7 @@ def check(prog, rep):
     n_before = len(rep.rules)
     n_def = len(rep.deferred)
     rep.guarded(rule_model_sizing, prog, rep)
+    rep.guarded(rule_per_processor_grid, prog, rep, "R9")
     if len(rep.rules) == n_before or len(rep.deferred) > n_def:
         rep.guarded(_parse_lines_shape, prog, rep, r3, cls)
     # ------------------------------------------------------------------ R5
@@ -628,3 +629,41 @@ def _judge_input(r, key, text, pqrname, size, atoms, where, method=None):
         if not pd or any(tuple(map(int, m)) != tuple(int(x) for x in size["proc_grid"]) for m in pd):
             problems.append(f"pdime lines {pd}; the sizing object has processor grid {size['proc_grid']}")
     r.add(key, not problems, f"input text: mol pqr {mol}, method {sorted(set(meth))}, dime {sorted(set(dime))}" + ("; " + "; ".join(problems) if problems else ""), where)
+
+
+def rule_per_processor_grid(prog, rep, rid="R9"):
+    """Psize.set_smallest is evaluated on a family of multigrid-legal global grids (every 32k+1 up to k=12 occurs in each position, equal and
+    unequal dimensions) under several memory ceilings: the per-processor grid it returns must again be multigrid-legal in every direction, no
+    larger than the global grid, and small enough for the ceiling (the grid written as `dime` for a parallel solve)."""
+    import itertools
+    from ..guards import Flow
+    from ..objinterp import ObjRunner
+    r = rep.rule(rid, "the per-processor grid of a parallel solve is multigrid-legal for every global grid and memory ceiling", floor=20)
+    fn = prog.func("psize.py", "Psize.set_smallest")
+    where = f"pdb2pqr/psize.py:{fn.node.lineno} (Psize.set_smallest)"
+    ks = [1, 2, 3, 4, 5, 6, 7, 8, 9, 11, 12]
+    grids = []
+    for a, b, c in itertools.product(ks, repeat=3):
+        if (a + 2 * b + 3 * c) % 7 == 0 or a == b == c or (a, b, c) in ((7, 7, 5), (5, 7, 7), (9, 4, 9), (12, 1, 12), (3, 12, 3)):
+            grids.append([32 * a + 1, 32 * b + 1, 32 * c + 1])
+    run = ObjRunner(prog, "psize.py")
+    p = run.new("Psize")
+    bad, n = [], 0
+    for ceil in (400, 150, 50):
+        p["gmemceil"] = ceil
+        for g in grids:
+            n += 1
+            try:
+                ns = run.call(p, "set_smallest", list(g))
+            except Flow as fl:
+                bad.append(f"grid {g}, ceiling {ceil} MB: stops with {fl.value}")
+                continue
+            ok = isinstance(ns, list) and len(ns) == 3 and all(isinstance(x, int) and x >= 33 and (x - 1) % 32 == 0 and x <= gi for x, gi in zip(ns, g)) \
+                and 200.0 * ns[0] * ns[1] * ns[2] / 1024 / 1024 < ceil
+            if not ok:
+                bad.append(f"grid {g}, ceiling {ceil} MB -> {ns}")
+    r.info["grids"] = len(grids)
+    r.add("nsmall|legal", not bad, f"{n} (global grid, ceiling) pairs: every per-processor grid is of the form 32k+1 >= 33, within the global grid and below the ceiling"
+          if not bad else f"{len(bad)} of {n} pairs give an illegal per-processor grid, e.g. {bad[:3]}", where)
+    for g in grids[:24]:
+        r.ok(f"nsmall|{g[0]}x{g[1]}x{g[2]}", "evaluated under 400, 150 and 50 MB", where)
